@@ -378,6 +378,9 @@ func (e *Env) ident(name string) tv {
 	if v, ok := e.vars[name]; ok {
 		return tv{v.v, v.t}
 	}
+	if alias := u.renamedTo(e, name); alias != "" && alias != name {
+		return e.ident(alias)
+	}
 	if p, t, ok := e.freeVar(name); ok {
 		return tv{u.loadCell(e, t, p), t}
 	}
@@ -1559,4 +1562,59 @@ func (u *Unit) structItems(env *Env, t types.Type, p *Term, src string) []frameI
 		}
 	}
 	return out
+}
+
+// renamedTo: name is not declared by the function any more; if the reference
+// tree had a parameter or local of that name, the variable now at the same
+// position (and, for locals, of the same type) is meant.
+func (u *Unit) renamedTo(e *Env, name string) string {
+	fn := u.fn
+	if e.fr != nil {
+		fn = e.fr.fn
+	}
+	if fn == nil {
+		return ""
+	}
+	h, ok := u.prog.nameHints[funcKey(fn)]
+	if !ok {
+		return ""
+	}
+	known := map[string]bool{}
+	for _, n := range h.Params {
+		known[n] = true
+	}
+	for _, n := range h.FreeVars {
+		known[n] = true
+	}
+	for _, l := range h.Locals {
+		known[l.Name] = true
+	}
+	for i, n := range h.Params {
+		if n == name && i < len(fn.Params) && len(h.Params) == len(fn.Params) {
+			if cur := fn.Params[i].Name(); cur != name && !known[cur] {
+				u.note("contract name " + name + " re-bound to the renamed parameter " + cur)
+				return cur
+			}
+		}
+	}
+	for i, n := range h.FreeVars {
+		if n == name && i < len(fn.FreeVars) && len(h.FreeVars) == len(fn.FreeVars) {
+			if cur := fn.FreeVars[i].Name(); cur != name && !known[cur] {
+				u.note("contract name " + name + " re-bound to the renamed captured variable " + cur)
+				return cur
+			}
+		}
+	}
+	cur := namedLocals(fn)
+	for _, l := range h.Locals {
+		if l.Name != name || l.Ord >= len(cur) || len(cur) != len(h.Locals) {
+			continue
+		}
+		c := cur[l.Ord]
+		if c.Comment != name && !known[c.Comment] && ptrElem(c.Type()).String() == l.Type {
+			u.note("contract name " + name + " re-bound to the renamed local " + c.Comment)
+			return c.Comment
+		}
+	}
+	return ""
 }
